@@ -2,3 +2,4 @@
 pub mod memtransport;
 pub mod util;
 pub mod wsess;
+pub mod fakes;
